@@ -30,6 +30,7 @@ class Handle:
         self.seen_gone = False
         self.running_false = False
         self.hash0 = None
+        self.cms = []
 
 
 class PTable(EngineBase):
@@ -183,11 +184,15 @@ class PTable(EngineBase):
                     op["cpus"] = rng.choice([[0], [], [0, 0], [0, 1], [1],
                                              [99], [0, 99]])
                 return op
-            if r < 0.84:
+            if r < 0.82:
                 return {"op": "is_running", "h": rng.randrange(64)}
+            if r < 0.86:
+                return {"op": rng.choice(["oneshot_enter", "oneshot_enter",
+                                          "oneshot_exit"]),
+                        "h": rng.randrange(64)}
             if r < 0.90:
                 return {"op": "get", "h": rng.randrange(64),
-                        "m": rng.choice(GETTER_POOL)}
+                        "m": rng.choice(GETTER_POOL + ["ppid", "ppid"])}
             if r < 0.94:
                 return {"op": "iter", "consume": rng.choice([None, None, 1, 2])}
             if r < 0.97:
@@ -197,7 +202,12 @@ class PTable(EngineBase):
             if r < 0.25:
                 return {"op": "new", "slot": rng.randrange(64)}
             if r < 0.45:
-                return {"op": "is_running", "h": rng.randrange(64)}
+                op = {"op": "is_running", "h": rng.randrange(64)}
+                if rng.random() < 0.12:
+                    # descriptor exhaustion / I/O error while probing: the
+                    # call may fail, the object must not be damaged
+                    op["deny"] = rng.choice([24, 5, 12, 23])
+                return op
             if r < 0.65:
                 return {"op": "eq", "h": rng.randrange(64),
                         "h2": rng.randrange(64)}
@@ -392,6 +402,12 @@ class PTable(EngineBase):
                     json.dumps({a: b for a, b in op.items() if a != "id"}),
                     (type(out[1]).__name__ if out[0] == "exc"
                      else repr(out[1])[:60])))
+        for h_ in st["handles"]:
+            while h_.cms:
+                try:
+                    h_.cms.pop().__exit__(None, None, None)
+                except Exception:  # noqa: BLE001
+                    pass
         # close dangling generators deterministically
         had_open = bool(st["open_gens"])
         for g in st["open_gens"]:
@@ -533,7 +549,23 @@ class PTable(EngineBase):
                 return p.rlimit(op["res"], tuple(op["lim"]))
             return p.cpu_affinity(op["cpus"])
         if kind == "is_running":
-            return p.is_running()
+            if op.get("deny"):
+                k.deny = {"/proc/%d/stat" % h.pid: op["deny"]}
+            try:
+                return p.is_running()
+            finally:
+                k.deny = {}
+        if kind == "oneshot_enter":
+            if len(h.cms) < 3:
+                cm = p.oneshot()
+                cm.__enter__()
+                h.cms.append(cm)
+                st["probe"]("oneshot_block_open")
+            return None
+        if kind == "oneshot_exit":
+            if h.cms:
+                h.cms.pop().__exit__(None, None, None)
+            return None
         if kind == "get":
             return getattr(p, op["m"])()
         if kind == "wait0":
@@ -795,6 +827,15 @@ class PTable(EngineBase):
             elif h.hash0 != out[1]:
                 self._V(st, "C02.hash", ctags + ["changed"], "hash",
                         "hash of a handle changed")
+        if kind == "is_running" and out[1] != "no-handle" and \
+                op.get("deny") and out[0] == "exc" and \
+                isinstance(out[1], OSError) and not isinstance(
+                    out[1], (PermissionError, FileNotFoundError,
+                             ProcessLookupError)):
+            # the injected EMFILE/EIO/ENOMEM may come through; what matters
+            # is that later answers are unharmed (checked by later ops)
+            probe("is_running_probe_failed")
+            return
         if kind == "is_running" and out[1] != "no-handle":
             h = st["cur_handle"]
             if out[0] == "exc":
@@ -1339,8 +1380,10 @@ PTable.COMPONENTS = {
 }
 PTable.PROBES_BY_PROP = {
     "C01": ["attempt_on_recycled_pid", "reuse_after_seen_gone",
+            "oneshot_block_open",
             "delivered_ok", "ev_in_reuse", "ev_reuse"],
     "C02": ["two_incarnations_compared", "same_process_across_clock_step",
+            "is_running_probe_failed",
             "is_running_on_recycled_pid", "ev_clock_step", "ev_reuse"],
     "C04": ["identity_checked", "iterator_overlap",
             "pid_exists_with_failing_tgid_probe",
